@@ -449,6 +449,46 @@ def divergence(o, n, pos, ctxt="top"):
     return "%s:kind-changed" % ctxt
 
 
+def operations_stay_valid(ctx, rng, edit_name, old_d, new_d):
+    """Whenever NO breaking change is reported (either direction is tried), every operation valid against the
+    old schema is valid against the new one: sampled operations, valid by construction on the old schema."""
+    from py_gql import build_schema
+    from py_gql.lang import parse
+    from py_gql.validation import validate_ast
+    from gen import operation as gop
+    fails = []
+    for direction, (a_d, b_d) in (("fwd", (old_d, new_d)), ("rev", (new_d, old_d))):
+        try:
+            a_sdl, b_sdl = gs.to_sdl(a_d), gs.to_sdl(b_d)
+            if changes(a_sdl, b_sdl, min_severity=BREAKING):
+                continue
+            a, b = build_schema(a_sdl), build_schema(b_sdl)
+        except Exception:  # noqa
+            continue
+        for _ in range(3):
+            try:
+                op = gop.gen_operation(rng, a_d, size=rng.randint(1, 3))
+                doc = parse(op["text"])
+                if validate_ast(a, doc).errors:
+                    ctx.stat("op-not-valid-on-old(skipped)")
+                    continue
+            except Exception:  # noqa
+                ctx.stat("op-generation-skipped")
+                continue
+            ctx.stat("op-checked-after-nonbreaking-diff")
+            ctx.count()
+            try:
+                errs = validate_ast(b, parse(op["text"])).errors
+            except Exception as e:  # noqa
+                errs = ["raises " + type(e).__name__]
+            if errs:
+                fails.append(("nobreaking-but-operation-invalid:%s:%s" % (edit_name, direction),
+                              "no BREAKING change reported for edit %s (%s) but an operation valid on the old schema is invalid on the new one: %s | %s"
+                              % (edit_name, direction, op["text"][:200], str(errs[0])[:150])))
+                break
+    return fails
+
+
 def shape(t):
     return "N" if t[0] == "named" else ("L(%s)" % shape(t[1]) if t[0] == "list" else "%s!" % shape(t[1]))
 
@@ -479,6 +519,7 @@ def one_case(ctx, seed, want=None):
             return out
         out += f
     ctx.stat("edit:" + edit.__name__)
+    out += operations_stay_valid(ctx, rng, edit.__name__, old_d, new_d)
     return out
 
 
